@@ -42,7 +42,7 @@ class Sim:
         self._in_event = False
 
     # --- event log -------------------------------------------------------------
-    def ev(self, kind, **kw):
+    def ev(self, kind, /, **kw):
         self.seq += 1
         rec = {'n': self.seq, 't': self.now_ms, 'k': kind}
         rec.update(kw)
@@ -236,7 +236,23 @@ class Transport:
             q=query,
             body=(body.decode('utf-8', 'replace') if (body and self.record_bodies) else (len(body) if body else None)),
         )
-        directive = self.fault_for(req) if self.fault_for else None
+        bkey = (req['method'], path, query, body)
+        reply = None
+        directive = None
+        burst = self._burst.get(bkey)
+        if burst and burst[0] > 0:
+            # an injected transient burst in progress on this very request (same method/url/body)
+            burst[0] -= 1
+            directive = {'f': burst[1], 'status': burst[2], 'continued': True}
+        else:
+            self._burst.pop(bkey, None)
+            directive = self.fault_for(req) if self.fault_for else None
+            if directive and directive.get('f') in ('transient', 'preval'):
+                n = int(directive['n'])
+                if n <= 0:
+                    directive = None
+                else:
+                    self._burst[bkey] = [n - 1, directive['f'], int(directive.get('status', 503))]
         lat = self.latency_ms
         if directive and directive.get('f') == 'latency':
             lat += int(directive['ms'])
@@ -244,24 +260,15 @@ class Transport:
             rec['fault'] = 'latency'
         if lat:
             sim.advance(lat)
-        reply = None
         if directive:
             f = directive.get('f')
             if f in ('transient', 'preval'):
-                key = directive.get('key', (req['method'], path, query, body))
-                left = self._burst.get(key)
-                if left is None:
-                    left = int(directive['n'])
-                if left > 0:
-                    self._burst[key] = left - 1
-                    sim.stats['fault:' + f] += 1
-                    rec['fault'] = f
-                    if f == 'transient':
-                        reply = Reply(int(directive.get('status', 503)), temp_error_body('inj%d' % self.attempts))
-                    else:
-                        reply = Reply.text('Assert_failure src/lib_shell/prevalidator.ml:1918:6 inj', 500)
+                sim.stats['fault:' + f] += 1
+                rec['fault'] = f
+                if f == 'transient':
+                    reply = Reply(int(directive.get('status', 503)), temp_error_body('inj%d' % self.attempts))
                 else:
-                    self._burst.pop(key, None)
+                    reply = Reply.text('Assert_failure src/lib_shell/prevalidator.ml:1918:6 inj', 500)
             elif f == 'reject':
                 sim.stats['fault:reject'] += 1
                 rec['fault'] = 'reject:' + directive.get('how', 'exc')
